@@ -45,7 +45,33 @@ def shards(tier):
     out = [(i, min(i + size, n)) for i in range(0, n, size)]
     # builder phase: the graph is grown edge by edge on ONE live object and queried after every step
     out += [("build", i) for i in range(len(build_ops()))]
+    # the same over three names with count-preserving edge moves as steps (constant-size in-place edits; seeded C15-g)
+    out += [("buildmv", i) for i in range(9)]
     return out
+
+
+def _move_judge(res):
+    from y0.algorithm.conditional_independencies import are_d_separated
+
+    def judge(y, g, hist):
+        for a, b in itt.combinations(g.nodes, 2):
+            rest = [v for v in g.nodes if v not in (a, b)]
+            for c in subsets(rest):
+                res.transitions += 1
+                case = {"builder_ops": hist, "moves": True, "a": a, "b": b, "C": list(c)}
+                try:
+                    got = bool(are_d_separated(y, V(a), V(b), conditions=[V(x) for x in c]))
+                except Exception as e:  # noqa
+                    res.violation("exception", case, f"raised {type(e).__name__}: {e}")
+                    return False
+                want = msep(g, a, b, c)
+                if got != want:
+                    res.violation("verdict", case, f"after editing one graph object by {hist}: separated={got}, oracle={want}")
+                    return False
+        res.outcomes["builder_step_ok"] += 1
+        return True
+
+    return judge
 
 
 def explore_builder(res: Res, first, tier):
@@ -120,6 +146,7 @@ def describe(tier):
         + ("" if tier == "thorough" else ", name-ordered sub-family O(4) only")
         + ") for n>=4; PYTHONHASHSEED in "
         + str(HASH_SEEDS[tier])
+        + "; plus every sequence of 3 steps over 3 names where a step is an edge insertion or a count-preserving edge move, all queries after each step"
         + "; plus every sequence of 3 edge insertions (directed or bidirected, 4 names) on one live graph object with all "
         "queries after every insertion",
         "rule": "state = (graph, insertion order, a, b, C); transition = one are_d_separated call compared with the "
@@ -219,6 +246,12 @@ def work(shard, tier, seed):
         if hs == 0:
             explore_builder(res, shard[1], tier)
         return res
+    if shard[0] == "buildmv":
+        if hs == 0:
+            from ..builder import NAMES3, run_sequences
+
+            res.states += run_sequences(shard[1], 3, _move_judge(res), names=NAMES3, moves=True)
+        return res
     lo, hi = shard
     for g in _universe(tier)[lo:hi]:
         ref = None
@@ -239,6 +272,11 @@ def work(shard, tier, seed):
 
 
 def replay(case, clause=None):
+    if case.get("moves"):
+        from ..builder import replay_sequence
+
+        replay_sequence(case["builder_ops"], _move_judge(res))
+        return [v for v in res.violations if v["input"].get("builder_ops") == case["builder_ops"]][:1]
     if "builder_ops" in case:
         res = Res()
         ops = build_ops()
